@@ -4,7 +4,7 @@ use super::fmt::{self, Case};
 use crate::engine::{Check, Ctx, Outcome, hash_str};
 use crate::fail;
 
-pub const RULE: &str = "generated programs (1-6 statements, every node kind, operators, output forms) rendered with random admissible layout, comments at the positions C09 lists and 0-5 blank lines, parsed by the real parser (the parsed AST is the program); formatted at widths {1,2,5,10,20,30,40,60,80(default),100,120,random} through format_expr per statement and through the WASM driver loop (hook H1), and 8% through `blots --format`; the output must parse to the same number and kinds of statements with equal ASTs modulo comment attachment. Also enumerated parent/child/position shapes. Non-trivial = a statement of depth >= 3 containing a compound operand; distinct by (program text, width).";
+pub const RULE: &str = "generated programs (1-6 statements, every node kind, operators, output forms) rendered with random admissible layout, comments at the positions C09 lists and 0-5 blank lines, parsed by the real parser (the parsed AST is the program); formatted at widths {1,2,5,10,20,30,40,60,80(default),100,120,random} through format_expr per statement and through the WASM driver loop (hook H1), and 8% through `blots --format` (to a fresh path, over a longer earlier file, or in place); the output must parse to the same number and kinds of statements with equal ASTs modulo comment attachment. Also enumerated parent/child/position shapes. Non-trivial = a statement of depth >= 3 containing a compound operand; distinct by (program text, width).";
 pub const ASSUMPTIONS: &[&str] = &[
     "texts the real parser rejects are discarded and counted (generator unhealthy above 5%)",
     "AST equality is blots-core's PartialEq (spans ignored) after erasing comment attachments",
